@@ -33,6 +33,22 @@ warnings.filterwarnings("ignore")
 
 
 # ----------------------------------------------------------------- helpers
+def cap_failures(B, per_sig=2):
+    """record at most per_sig violations per failure class (signature); further ones are still
+    counted as evaluations.  Keeps a known class from using up all the violation slots."""
+    orig, seen = B.fail, {}
+
+    def fail(contract, case, observed, expected, signature=None):
+        sig = signature or contract
+        seen[sig] = seen.get(sig, 0) + 1
+        if seen[sig] > per_sig:
+            B.evaluations += 1
+            B.contracts[contract] = B.contracts.get(contract, 0) + 1
+            return
+        orig(contract, case, observed, expected, signature)
+    B.fail = fail
+
+
 def canon(x):
     """JSON-able canonical form with NaN made comparable"""
     if isinstance(x, pd.DataFrame):
@@ -378,6 +394,8 @@ class Scenario:
 
 def main():
     B = Bounded("C18", "bounded/C18.py")
+    B.max_violations = 40
+    cap_failures(B)
     T = dict(bin_tables(small=False))
     rngm = lambda n: dict(matrices(n, random.Random(B.seed), 5))
     # (table, matrix, symmetric_upper, nested-with-siblings, full option set for the single-step maps)
@@ -399,13 +417,13 @@ def main():
                "non-empty injective maps (options {keep, longer, other}" + (" + identity, shorter" if B.thorough else "") +
                ") on a 2-chromosome cooler x both encodings, 3-step swap via a temporary name, swap twice, there-and-back; "
                "store given as path / URI with and without leading slash / open r+ handle; 30-40k-character names forcing "
-               "the integer fallback" + ("; 240 seeded random 3-step chains on 3 chromosomes with random names" if B.thorough else "")
+               "the integer fallback" + ("; 150 seeded random 3-step chains on 3 chromosomes with random names" if B.thorough else "")
                + "; every step checked on the same object and on a reopened one (full query set on every "
-               + ("2nd" if B.thorough else "4th") + " case, light set otherwise) plus a raw h5py diff of the whole file")
+               + ("4th" if B.thorough else "6th") + " case, light set otherwise) plus a raw h5py diff of the whole file")
     B.rule = ("case = (cooler, encoding, store form, list of maps so far, object, query); non-trivial when the step changes "
               "at least one name; distinct by case")
     B.exhaustive = not B.thorough
-    every = 2 if B.thorough else 4
+    every = 4 if B.thorough else 6
     scen = {}
     k = 0
     for tname, mname, symm, nested, fullopts in plan:
@@ -441,12 +459,10 @@ def main():
         forms = ["uri", "handle"] + (["path"] if S.root == "/" else [])
         for form in forms:
             S.run_chain([{nm[0]: "Z" + nm[0]}, {nm[-1]: "Q"}], store_form=form, level=1)
-        if len(nm) >= 2 and (B.thorough or key[0] in ("one-bin-chroms", "fixed10-short-last")):
-            S.run_chain([{nm[0]: "L" * 40000, nm[1]: "M" * 30000}, {"L" * 40000: "back"}], level=1)
     if B.thorough:
         alphabet = "abcXYZ019_.|"
         S3 = [s for key, s in scen.items() if len(s.names0) == 3]
-        for it in range(240):
+        for it in range(150):
             S = S3[it % len(S3)]
             cur = list(S.names0)
             chain = []
@@ -467,6 +483,11 @@ def main():
                 cur = new
             if chain:
                 S.run_chain(chain, level=2 if it % 4 == 0 else 0)
+    # LAST (known failure class): names too long for the HDF5 enum header -> the library's integer fallback
+    for key, S in scen.items():
+        nm = S.names0
+        if len(nm) >= 2 and (B.thorough or key[0] in ("one-bin-chroms", "fixed10-short-last")):
+            S.run_chain([{nm[0]: "L" * 40000, nm[1]: "M" * 30000}, {"L" * 40000: "back"}], level=1)
     return B.finish()
 
 
